@@ -2083,7 +2083,7 @@ class C08(SampleCheck):
             # (no declared-but-unused variables there: CasADi drops those from opti.x and the nesting check would have to skip the case)
             desc = self.gen({'methods': [('dc', 'rk')], 'Ms': [2, 3], 'features': {'qstate': 0.0, 'dae': 1.0, 'pc': 0.0, 'pcp': 0.0, 'vc': 0.0, 'p': 0.0, 'v': 0.0},
                              'horizon': ['num'], 'grids': ['uniform', 'geometric'],
-                             'alg_layouts': [[1], [2], [1, 1]]}) if it_ < (4 if self.tier == 'quick' else 40) else self.gen()
+                             'alg_layouts': [[1], [2], [1, 1]], 'schemes': [['legendre', 'radau'][it_ % 2]], 'degrees': [2, 3, 4]}) if it_ < (4 if self.tier == 'quick' else 40) else self.gen()
             try:
                 b = B.build(desc)
             except Exception as e:
@@ -2162,7 +2162,7 @@ class C08(SampleCheck):
         for it_ in range(n):
             forced = it_ < 3      # dedicated: an algebraic variable under direct collocation with several integration steps, queried in later steps
             desc = self.gen({'features': {'qstate': 0.0, 'dae': 1.0 if forced else 0.3, 'p': 0.0, 'pc': 0.0, 'pcp': 0.0, 'v': 0.0, 'vc': 0.0, 'vcp': 0.0},
-                             'horizon': ['num'], 'grids': ['uniform', 'geometric', 'data'], **({'methods': [('dc', 'rk')], 'Ms': [2, 3], 'Ns': [2, 3]} if forced else {})})
+                             'horizon': ['num'], 'grids': ['uniform', 'geometric', 'data'], **({'methods': [('dc', 'rk')], 'Ms': [2, 3], 'Ns': [2, 3], 'schemes': [['legendre', 'radau'][it_ % 2]], 'degrees': [2, 3, 4]} if forced else {})})
             try:
                 b = B.build(desc)
                 e = G.poly(self.rng, sample_atoms(desc, 'integrator', for_sampler=True), (1, 3), 2)
